@@ -230,6 +230,15 @@ def shape_faults(doc):
     d = copy.deepcopy(d)
     d["pattern"] = pat + [{"@undefined": {"times": 1}}]
     yield "undefined_macro_key", d
+    # undefined macro inside the body of the last (only) macro, as a plain list element / operand
+    d = copy.deepcopy(doc)
+    d["macros"] = list(d.get("macros", [])) + [{"name": "@wrap", "pattern": [{"$or": [{"xor": ["@undefined", "@undefined"]}, "nop"]}]}]
+    d["pattern"] = pat + ["@wrap"]
+    yield "undefined_macro_in_last_macro_body", d
+    # address-range bounds written as YAML integers (unquoted 0x1000) instead of strings
+    d = copy.deepcopy(doc)
+    d["config"] = dict(d.get("config") or {}, valid_addr_range={"min": 0x1000, "max": 0x2000})
+    yield "valid_addr_range_int_bounds", d
     # undefined macro with NO macro definition anywhere
     d = copy.deepcopy(doc)
     d.pop("macros", None)
